@@ -1,5 +1,6 @@
 import OsacaVerif.Spec.Assignment
 import OsacaVerif.Lemmas.Feasible
+import OsacaVerif.Lemmas.Round2
 import Mathlib.Combinatorics.Hall.Finite
 import Mathlib.Algebra.BigOperators.Fin
 import Mathlib.Algebra.BigOperators.Group.Finset.Sigma
@@ -10,6 +11,7 @@ import Mathlib.Algebra.BigOperators.Field
 import Mathlib.Tactic.Positivity
 import Mathlib.Data.Fintype.Sigma
 import Mathlib.Data.Fintype.Prod
+import Mathlib.Data.List.GetD
 import Mathlib.Tactic.Ring
 import Mathlib.Tactic.Linarith
 import Mathlib.Tactic.FieldSimp
@@ -129,5 +131,88 @@ theorem frac_hall {ι P : Type} [Fintype ι] [DecidableEq ι] [Fintype P] [Decid
   · intro p
     rw [← Finset.sum_div, div_le_iff₀ hDq, ← hc]
     exact_mod_cast hyc p
+
+/-! ### list ↔ `Finset.sum` bridges -/
+
+open OsacaVerif OsacaVerif.Ports OsacaVerif.Spec
+
+theorem sum_map_eq_range {α : Type} (l : List α) (f : α → ℚ) (d : α) :
+    (l.map f).sum = ∑ i ∈ range l.length, f (l.getD i d) := by
+  induction l with
+  | nil => simp
+  | cons a l ih =>
+    rw [List.length_cons, Finset.sum_range_succ', List.map_cons, List.sum_cons, ih]
+    simp [add_comm]
+
+theorem sum_eq_range (l : List ℚ) : l.sum = ∑ i ∈ range l.length, l.getD i 0 := by
+  simpa using sum_map_eq_range l id 0
+
+theorem sum_filter_map {α : Type} (l : List α) (p : α → Bool) (f : α → ℚ) :
+    ((l.filter p).map f).sum = (l.map fun u => if p u then f u else 0).sum := by
+  induction l with
+  | nil => simp
+  | cons a l ih => by_cases h : p a <;> simp [h, ih]
+
+theorem confined_eq_range (us : List Uop) (S : List Nat) :
+    confined us S = ∑ i ∈ range us.length,
+      if (us.getD i default).ports.all (· ∈ S) then (us.getD i default).amount else 0 := by
+  unfold confined
+  rw [sum_filter_map, sum_map_eq_range _ _ default]
+
+theorem totalAmount_eq_range (us : List Uop) :
+    totalAmount us = ∑ i ∈ range us.length, (us.getD i default).amount :=
+  sum_map_eq_range _ _ _
+
+theorem sumOn_eq_sum (v : List ℚ) (S : List Nat) (hS : S.Nodup) :
+    sumOn v S = ∑ p ∈ S.toFinset, v.getD p 0 := by
+  unfold sumOn
+  exact (List.sum_toFinset _ hS).symm
+
+theorem length_colSums (n : Nat) (x : List (List ℚ)) : (Spec.colSums n x).length = n := by
+  simp [Spec.colSums]
+
+theorem getD_colSums (n : Nat) (x : List (List ℚ)) (p : Nat) (hp : p < n) :
+    (Spec.colSums n x).getD p 0 = ∑ i ∈ range x.length, (x.getD i []).getD p 0 := by
+  unfold Spec.colSums
+  rw [List.getD_eq_getElem _ _ (by simpa using hp)]
+  simp only [List.getElem_map, List.getElem_range]
+  exact sum_map_eq_range x (fun r => r.getD p 0) []
+
+section
+variable {n : Nat} {us : List Uop} {x : List (List ℚ)}
+
+theorem _root_.OsacaVerif.Spec.Assignment.getD_mem (h : Assignment n us x) (i : Nat) (hi : i < us.length) :
+    x.getD i [] ∈ x := by
+  have : i < x.length := h.rows ▸ hi
+  rw [List.getD_eq_getElem _ _ this]
+  exact List.getElem_mem _
+
+theorem _root_.OsacaVerif.Spec.Assignment.entry_nonneg (h : Assignment n us x) (i p : Nat) :
+    0 ≤ (x.getD i []).getD p 0 := by
+  by_cases hi : i < x.length
+  · have hm : x.getD i [] ∈ x := by
+      rw [List.getD_eq_getElem _ _ hi]; exact List.getElem_mem _
+    by_cases hp : p < (x.getD i []).length
+    · rw [List.getD_eq_getElem _ _ hp]
+      exact h.nonneg _ hm _ (List.getElem_mem _)
+    · rw [List.getD_eq_default _ _ (not_lt.mp hp)]
+  · rw [List.getD_eq_default x _ (not_lt.mp hi)]
+    simp
+
+theorem _root_.OsacaVerif.Spec.Assignment.rowSum_range (h : Assignment n us x) (i : Nat) (hi : i < us.length) :
+    ∑ p ∈ range n, (x.getD i []).getD p 0 = (us.getD i default).amount := by
+  rw [← h.rowSum i hi, sum_eq_range, h.width _ (h.getD_mem i hi)]
+
+end
+
+/-- `maxLoad` dominates every entry -/
+theorem getD_le_maxLoad (v : List ℚ) (p : Nat) (hp : p < v.length) : v.getD p 0 ≤ maxLoad v := by
+  rw [List.getD_eq_getElem _ _ hp]
+  exact (le_foldl_max v 0).2 _ (List.getElem_mem _)
+
+theorem maxLoad_nonneg (v : List ℚ) : 0 ≤ maxLoad v := (le_foldl_max v 0).1
+
+theorem maxLoad_le_iff (v : List ℚ) (B : ℚ) : maxLoad v ≤ B ↔ 0 ≤ B ∧ ∀ c ∈ v, c ≤ B :=
+  foldl_max_le_iff v 0 B
 
 end OsacaVerif.Duality
